@@ -40,6 +40,12 @@ func topBounds(file []byte) []int {
 // no longer point into the mdat (not a valid sample range any more; only the selection and the whole-payload
 // reads are compared for such files).
 func genMultiMdat(rng *hx.Rng) (file []byte, shifted bool) {
+	file, shifted, _ = genMultiMdatPos(rng)
+	return
+}
+
+// genMultiMdatPos also returns where the media mdat (the one the chunk offsets point into) ended up.
+func genMultiMdatPos(rng *hx.Rng) (file []byte, shifted bool, mediaAt int) {
 	pf := genProg(rng, progOpts{maxChunks: 3, maxSpc: 2, maxSize: 4})
 	f := append([]byte{}, pf.file...)
 	nExtra := rng.Range(1, 3)
@@ -66,7 +72,7 @@ func genMultiMdat(rng *hx.Rng) (file []byte, shifted bool) {
 		g = append(g, f[at:]...)
 		f = g
 	}
-	return hx.Exact(f), shifted
+	return hx.Exact(f), shifted, mediaPos
 }
 
 // selString is the API-visible identity of File.Mdat: StartPos, LargeSize, Size(), PayloadAbsoluteOffset().
@@ -105,7 +111,7 @@ func corrMultiMdat(rng *hx.Rng, n int) {
 func searchMultiMdat(rng *hx.Rng, n int) int {
 	evals := 0
 	for i := 0; i < n; i++ {
-		file, shifted := genMultiMdat(rng)
+		file, shifted, mediaAt := genMultiMdatPos(rng)
 		orc := genOracle(rng)
 		zeof := rng.Bool()
 		fm, fl, em, el := decodeFileBoth(file, orc, zeof)
@@ -132,7 +138,9 @@ func searchMultiMdat(rng *hx.Rng, n int) int {
 				continue
 			}
 		}
-		if !shifted && fm.Moov != nil && fm.Moov.Trak != nil && fl.Moov != nil && fl.Moov.Trak != nil {
+		// the sample tables describe ranges of the MEDIA mdat: they are valid ranges of File.Mdat only when that box was
+		// selected (an empty media mdat - all samples of size 0 - loses against an inserted non-empty one)
+		if !shifted && int(fm.Mdat.StartPos) == mediaAt && fm.Moov != nil && fm.Moov.Trak != nil && fl.Moov != nil && fl.Moov.Trak != nil {
 			n := fm.Moov.Trak.Mdia.Minf.Stbl.Stsz.SampleNumber
 			if n > 0 {
 				for _, wl := range []int{0, 3} {
